@@ -5,3 +5,4 @@ import Cqos.Utils
 import Cqos.Tactic
 import Cqos.Proto
 import Cqos.DriverPure
+import Cqos.Props.C13
